@@ -213,6 +213,14 @@ package car
 //@   call[Index.Load#0] assert args [C03]: ref(arg0) == ref(idx) && ref(arg1) == ref(records)
 
 //@ func ReplaceRootsInFile
+//@   let _, h2err := call[Header.ReadFrom#0]
+//@   call[File.Seek#1] assert to_the_inner_header [C10]: arg1 == wrap_s64(cur(v2h).DataOffset) && arg2 == 0 && h2err == nil
+//@   call[File.Seek#3] assert to_where_the_header_starts [C10]: arg1 == ite(h0.Version == 2, wrap_s64(cur(v2h).DataOffset), 0) && arg2 == 0
+//@   call[File.Seek#0] assert asks_for_the_current_position [C10]: arg1 == 0 && arg2 == 1
+//@   call[File.Seek#2] assert asks_for_the_current_position [C10]: arg1 == 0 && arg2 == 1
+//@   call[fmt.Errorf#0] assert refuses_only_an_unknown_version [C09,C10]: h0.Version != 1 && h0.Version != 2
+//@   call[fmt.Errorf#2] assert refuses_only_a_header_of_another_length [C10]: currentSize != newSize
+//@   call[fmt.Errorf#1] assert flags_only_an_inner_header_that_is_not_version_1 [C10]: e1 == nil && h1.Version != 1
 //@   call[carv1.ReadHeader#0] assert configured_header_limit [C09]: arg1 == options.MaxAllowedHeaderSize
 //@   call[carv1.ReadHeader#1] assert configured_header_limit [C09]: arg1 == options.MaxAllowedHeaderSize
 //@   let h0, e0 := call[carv1.ReadHeader#0]
@@ -226,6 +234,28 @@ package car
 //@   call[carv1.WriteHeader#0] assert new_header [C10]: arg0.Version == 1 && arg0.Roots == roots
 
 //@ func ExtractV1File
+//@   let src, operr := call[os.Open#0]
+//@   let ver, verr := call[ReadVersion#0]
+//@   let _, herr := call[Header.ReadFrom#0]
+//@   let dst, derr := call[os.OpenFile#0]
+//@   let copied, cperr := call[io.CopyN#0]
+//@   let fsz := call[FileInfo.Size#0]
+//@   let _, sterr := call[File.Stat#0]
+//@   call[os.Open#0] assert opens_the_source [C10]: arg0 == srcPath
+//@   call[ReadVersion#0] assert of_the_source_with_the_callers_options [C09,C10]: ref(arg0) == ref(src) && arg1 == opts
+//@   call[Header.ReadFrom#0] assert of_the_source [C10]: ref(arg1) == ref(src) && ver == 2
+//@   call[fmt.Errorf#0] assert refuses_only_an_unknown_version [C09,C10]: verr == nil && ver != 1 && ver != 2
+//@   call[fmt.Errorf#1] assert refuses_only_a_payload_inside_the_headers [C09,C10]: herr == nil && wrap_s64(cur(v2h).DataOffset) < 51
+//@   call[fmt.Errorf#2] assert refuses_only_an_empty_payload [C09,C10]: herr == nil && wrap_s64(cur(v2h).DataSize) <= 0
+//@   call[fmt.Errorf#3] assert refuses_only_a_short_copy [C10]: cperr == nil && copied != wrap_s64(cur(v2h).DataSize)
+//@   call[File.Seek#0] assert to_the_start_of_the_payload [C10]: ref(arg0) == ref(src) && arg1 == wrap_s64(cur(v2h).DataOffset) && arg2 == 0
+//@   call[os.OpenFile#0] assert destination_only_after_validation [C10]: arg0 == dstPath && verr == nil && ver == 2 && herr == nil && wrap_s64(cur(v2h).DataOffset) >= 51 && wrap_s64(cur(v2h).DataSize) > 0
+//@   call[File.Truncate#0] assert only_a_larger_destination_is_cut [C10]: sterr == nil && fsz > wrap_s64(cur(v2h).DataSize)
+//@   ensures a_v1_source_is_refused_as_such [C10]: operr == nil && verr == nil && ver == 1 ==> err == ErrAlreadyV1
+//@   ghost after call[File.Truncate#0]: mark(dst) := 1
+//@   ghost after call[os.OpenFile#0]: mark(dst) := 0
+//@   check a_larger_destination_is_cut_to_the_payload [C10]: executed("File.Stat#0") && sterr == nil && fsz > wrap_s64(cur(v2h).DataSize) ==> mark(dst) == 1
+//@   check a_copy_error_is_reported [C10,C16]: executed("io.CopyN#0") && cperr != nil ==> err == cperr
 //@   call[os.OpenFile#0] assert keeps_existing_bytes [C10]: arg1 == 65
 //@   call[io.CopyN#0] assert payload_window [C10]: pos(arg1) == sbase(arg1) + v2h.DataOffset && arg2 == v2h.DataSize && ref(arg1) == ref(src) && ref(arg0) == ref(dst)
 //@   call[File.Truncate#0] assert to_payload_size [C10]: arg1 == v2h.DataSize && ref(arg0) == ref(dst)
